@@ -5,6 +5,7 @@ import (
 	"reflect"
 	"sort"
 	"strings"
+	"time"
 
 	rt "github.com/enbility/spine-go/internal/verifrt"
 
@@ -636,7 +637,90 @@ func c01Families(thorough bool) []*engine.IFamily {
 			}
 			return r
 		}}
-	return []*engine.IFamily{matrix, nm, rejected, apiBuilt}
+	// ---- a feature of role special that the application created itself (node management is not the only one the role
+	// allows): reads and writes are answered like those of a server feature, also when the application tried to register a
+	// write approval callback on it (whether the stack accepts that registration is its business; a write that was
+	// handed to the callback and approved there is answered, one that needs no approval is answered at once)
+	special := &engine.IFamily{Name: "application-defined-special-feature", Chunks: 1,
+		Rule: "a local LoadControl feature of role special (readable and writable limit list) with and without an attempted write approval callback (which approves at once) x peer {bound, not bound} x {read, write} x ackRequest {true, absent}: exactly one reply for a read, exactly one result for a write with acknowledgement request (success iff bound), none without; non-trivial: all",
+		Run: func(int) engine.IResult {
+			var r engine.IResult
+			fail := func(key, msg string) {
+				r.NFails++
+				for _, f := range r.Fails {
+					if f.Key == key {
+						return
+					}
+				}
+				r.Fails = append(r.Fails, engine.IFail{Key: key, Msg: msg})
+			}
+			for _, withCb := range []bool{false, true} {
+				for _, bound := range []bool{false, true} {
+					for _, class := range []model.CmdClassifierType{model.CmdClassifierTypeRead, model.CmdClassifierTypeWrite} {
+						for _, ack := range []bool{true, false} {
+							r.Evals++
+							r.Nontrivial++
+							var n, okN, badN, replies int
+							res := rt.Execute(rt.Config{}, func() {
+								w := stdWorld(false, "A")
+								a := w.Peers["A"]
+								e := w.L.Entity(spine.NewAddressEntityType([]uint{1})).(*spine.EntityLocal)
+								f := spine.NewFeatureLocal(e.NextFeatureId(), e, model.FeatureTypeTypeLoadControl, model.RoleTypeSpecial)
+								f.AddFunctionType(fnLimit, true, true)
+								e.AddFeature(f)
+								f.SetData(fnLimit, limitList(1, 1, 2))
+								if withCb {
+									_ = f.AddWriteApprovalCallback(func(msg *api.Message) { f.ApproveOrDenyWrite(msg, model.ErrorType{ErrorNumber: 0}) })
+								}
+								if bound {
+									a.Deliver(a.BindCall(cliAddr("A", "e1f1", true), f.Address(), model.FeatureTypeTypeLoadControl))
+								}
+								rt.WaitIdle()
+								m := w.Mark()
+								cmd := model.CmdType{LoadControlLimitListData: limitList(2, 1, 2)}
+								if class == model.CmdClassifierTypeRead {
+									cmd = model.CmdType{LoadControlLimitListData: &model.LoadControlLimitListDataType{}}
+								}
+								d := a.Datagram(cliAddr("A", "e1f1", true), f.Address(), class, ack, nil, cmd)
+								a.Deliver(d)
+								rt.WaitIdle()
+								rt.Advance(time.Minute)
+								rt.WaitIdle()
+								for _, o := range w.Since(m) {
+									if o.Ref != int64(*d.Header.MsgCounter) {
+										continue
+									}
+									n++
+									if o.Class == "reply" {
+										replies++
+									}
+									if o.Class == "result" && o.Err == 0 {
+										okN++
+									}
+									if o.Class == "result" && o.Err != 0 {
+										badN++
+									}
+								}
+							})
+							key := fmt.Sprintf("%s ack=%v bound=%v approval callback attempted=%v", class, ack, bound, withCb)
+							for _, p := range res.Panics {
+								fail("panic | "+key, p.Value)
+							}
+							switch {
+							case class == model.CmdClassifierTypeRead && (replies != 1 || n != 1):
+								fail("a read of a special feature is not answered with exactly one reply | "+key, fmt.Sprintf("responses=%d replies=%d", n, replies))
+							case class == model.CmdClassifierTypeWrite && ack && (n != 1 || (bound && okN != 1) || (!bound && badN != 1)):
+								fail("a write to a special feature is not answered with exactly its one result | "+key, fmt.Sprintf("responses=%d success=%d error=%d", n, okN, badN))
+							case class == model.CmdClassifierTypeWrite && !ack && bound && n != 0:
+								fail("an accepted write without acknowledgement request is answered | "+key, fmt.Sprintf("responses=%d", n))
+							}
+						}
+					}
+				}
+			}
+			return r
+		}}
+	return []*engine.IFamily{matrix, nm, rejected, apiBuilt, special}
 }
 
 // c01Scenarios: messages of two connections processed at the same time are answered as if processed one
